@@ -723,12 +723,16 @@ static void run_options_child(const Opts& o)
         int devnull = open("/dev/null", O_WRONLY);
         dup2(devnull, 2);
         std::string stage = "params";
+        // stage markers go through the pipe before each stage, so that the parent knows where a process exit happened:
+        // the command-line library's usage exit (status 1) is a clean rejection only while the options are parsed
+        auto mark = [&](const char* s) { stage = s; printf("STAGE %s\n", s); fflush(stdout); };
         try {
             GMGPolar g;
+            mark("params");
             o.apply(g);
-            stage = "setup";
+            mark("setup");
             g.setup();
-            stage = "solve";
+            mark("solve");
             g.solve();
             bool finite = true;
             for (int i = 0; i < g.solution().size(); i++) if (!std::isfinite(g.solution()[i])) finite = false;
@@ -754,11 +758,17 @@ static void run_options_child(const Opts& o)
     int st = 0;
     waitpid(pid, &st, 0);
     // keep only the harness' own line (the solver prints unconditional messages)
-    std::string last;
+    std::string last, stage_seen = "none";
     size_t pos = 0;
-    while (pos < out.size()) { size_t e = out.find('\n', pos); if (e == std::string::npos) e = out.size(); std::string l = out.substr(pos, e - pos); if (l.rfind("RUN ", 0) == 0 || l.rfind("REJECTED ", 0) == 0) last = l; pos = e + 1; }
+    while (pos < out.size()) {
+        size_t e = out.find('\n', pos); if (e == std::string::npos) e = out.size();
+        std::string l = out.substr(pos, e - pos);
+        if (l.rfind("RUN ", 0) == 0 || l.rfind("REJECTED ", 0) == 0) last = l;
+        if (l.rfind("STAGE ", 0) == 0) stage_seen = l.substr(6);
+        pos = e + 1;
+    }
     if (WIFEXITED(st) && WEXITSTATUS(st) == 0 && !last.empty()) printf("%s\n", last.c_str());
-    else printf("ABORT status=%d signal=%d\n", WIFEXITED(st) ? WEXITSTATUS(st) : -1, WIFSIGNALED(st) ? WTERMSIG(st) : 0);
+    else printf("ABORT status=%d signal=%d stage=%s\n", WIFEXITED(st) ? WEXITSTATUS(st) : -1, WIFSIGNALED(st) ? WTERMSIG(st) : 0, stage_seen.c_str());
     fflush(stdout);
 }
 
@@ -815,7 +825,7 @@ static int mode_options(int cases)
             o.set("alpha_jump", rng.pick(std::vector<double>{0.66, 0.92053}));
             o.set("nr_exp", pickI({3, 4, 4, 5}));
             if (atoi(o.kv["anisotropic_factor"].c_str()) >= atoi(o.kv["nr_exp"].c_str())) o.set("anisotropic_factor", 1);
-            o.set("maxLevels", pickI({-1, -1, 2, 3}));
+            o.set("maxLevels", pickI({-1, -1, -1, 2, 2, 3, 3, 1, 0})); // caps 1 and 0 on otherwise valid tuples: must be rejected by setup()
             if (o.kv["ntheta_exp"] == "2") o.set("ntheta_exp", 3);
         }
         printf("OPT R0=%s Rmax=%s alpha_jump=%s opts=[%s]\n", hex(atof(o.kv["R0"].c_str())).c_str(), hex(atof(o.kv["Rmax"].c_str())).c_str(), hex(atof(o.kv["alpha_jump"].c_str())).c_str(), o.str().c_str());
